@@ -270,6 +270,7 @@ type world struct {
 	verbose         bool
 	hadBatch        map[int]bool
 	journal         func(step, who int, site string)
+	step            time.Duration // simulated time per scheduler step in this run
 }
 
 func (w *world) event(e string) {
@@ -476,9 +477,15 @@ func (w *world) simulate(choices []int) {
 		hardCap = cfg.HardCap
 	}
 
+	step := stepTime
+	if cfg.StepMs > 0 && !hasDeadline {
+		step = time.Duration(cfg.StepMs) * time.Millisecond
+		w.probes["hours_of_simulated_mining"] = 1
+	}
+	w.step = step
 	for {
 		k.Quiesce()
-		kernel.HiddenSleep(stepTime)
+		kernel.HiddenSleep(step)
 		k.Quiesce()
 		if st != nil {
 			drainLog(st, w)
@@ -1130,7 +1137,10 @@ func (w *world) finish() {
 	default:
 	}
 	w.res.Faults, w.res.Probes = w.faults, w.probes
-	w.res.SimNs = w.simNs + int64(w.res.Steps)*int64(stepTime)
+	if w.step == 0 {
+		w.step = stepTime
+	}
+	w.res.SimNs = w.simNs + int64(w.res.Steps)*int64(w.step)
 	if w.res.Tags == nil {
 		w.res.Tags = map[string]string{}
 	}
